@@ -1,6 +1,6 @@
 """Fail-closed translator for kernels of the ITERATIVE stages of upscale.ihu:  Python `ast`  ->  Gallina (coq/generated/GenIhu.v).
-  upscale.py:  next_outlet, outlet_pix, upscale_check, new_outlet, ihu_optimize_rivlen, ihu_minimize_error, and the driver ihu
-               (with ihu_relocate_outlets as a PARAMETER, see below)
+  upscale.py:  next_outlet, outlet_pix, upscale_check, new_outlet, ihu_optimize_rivlen, ihu_minimize_error, the driver ihu
+               (with ihu_relocate_outlets as a PARAMETER, see below), and ihu_relocate_outlets itself
   core.py:     _d8_idx, _upstream_d8_idx          (called by the two ihu_* stages as core._d8_idx / core._upstream_d8_idx)
 Registered into gen.GENERATORS on import.  It reuses the expression translator, the types and the kinds of cell numbers of
 gen_upscale.py (read its docstring first: Z / nat, kinds F / C, missing value mv = NSUB / NC, arrays read with `nth`, no overflow
@@ -10,14 +10,46 @@ Every statement of a translated function is translated or GenError is raised: no
 generated definition is proved equal to the hand model (theories/Ihu.v: next_outlet, outlet_pix, upscale_check, new_outlet,
 optimize_rivlen, minimize_error, ihu_iter / up_ihu; theories/D8Idx.v: d8_idx, upstream_d8_idx) in theories/GenIhu*Eq.v.
 
-NOT translated (left to the hand model Ihu.rl_* / relocate and its differential tests): ihu_relocate_outlets (350 lines: `while`
-loops with conditions, np.where / np.logical_and / np.unique, slices, negative indices).  In the driver the call
-`idxs_ds, subidxs_out, idxs_fix1 = ihu_relocate_outlets(idxs_fix=..., idxs_ds=..., subidxs_out=..., ...)` is the call of a PARAMETER
+ihu_relocate_outlets (360 lines) is translated LAST, as gen_ihu_ihu_relocate_outlets (so that the text generated for the other
+functions is what it was before this function was added).  In the driver the call
+`idxs_ds, subidxs_out, idxs_fix1 = ihu_relocate_outlets(idxs_fix=..., idxs_ds=..., subidxs_out=..., ...)` is STILL the call of a PARAMETER
 `relocate` of the generated gen_ihu_ihu (ABSTRACT_CALLS): a function of the arguments of the call (mv left out) that returns
 `option` of the three results; the source must define ihu_relocate_outlets with exactly this signature, and the aliasing rule
 below applies to it (it stores into idxs_ds and subidxs_out and returns them).  GenIhuDrvEq instantiates the parameter with the
-model Ihu.relocate.  Likewise effective_area is the parameter `ea` (as in gen_upscale.py): the kernels eam_repcell / ihu_outlets /
+model Ihu.relocate; theories/GenIhuRel*.v prove the generated gen_ihu_ihu_relocate_outlets equal to the model (with the fuel of
+the loop `while len(bottleneck) > nbottlenecks` as in the generated text, see GenIhuRelModel.v) and plug it into the driver.
+Likewise effective_area is the parameter `ea` (as in gen_upscale.py): the kernels eam_repcell / ihu_outlets /
 ihu_nextidx are the generated gen_up_* of GenUpscale.v, called with the driver's own subshape / cellsize / r_ratio.
+
+Constructs that only ihu_relocate_outlets needs (everything else in it is translated as described below):
+  * `if idxs_fix is None: x = ... else: x = idxs_fix` for a parameter declared as a list (spec key notnone): the callers that are
+    modelled always pass a list, the parameter's type has no None, the first branch is dead and is NOT translated (the only
+    statement that is left out; the shape of the if is checked).  `pass` is skipped.  `b is False` of a boolean is negb b.
+  * `while c:` and `while True:` loops whose body has for loops, while loops, calls of functions with while loops, and `break`
+    at the loop's own level (`True and c` is c): the body is a definition <w>_body from the tuple of the names bound before the
+    loop and assigned in it to (these names, the names first bound in the body that are read after the loop, left by break?),
+    and <w> is a Fixpoint over ITS OWN fuel `fuel_` that tests c and runs the body; out of fuel is None.  It is called with the
+    function's `fuel`, and the loops inside the body get the function's whole `fuel` again (ONE fuel parameter bounds every loop
+    separately).  When names first bound in the body are read after the loop, the first iteration is written out at the call
+    and a loop that is not entered has no value (None; Python: NameError at the read).  A simple `while True:` (no loop / call
+    of a partial function inside) is the old direct Fixpoint.  continue / return / assert directly in a while body: GenError.
+  * an if / elif whose branches can both reach the rest of the block, where some path ends in `continue` and the rest has a
+    loop: the value of the if is (the names assigned in it, cont_), and `if cont_ then <continue> else <rest>` follows (the
+    rest is translated once).  An if / else followed by a loop may FIRST BIND a name in BOTH branches (assigned on every path)
+    that is read afterwards (`if ..: d8 = False else: d8 = in_d8(..)`): it is part of the value of the if.
+  * lists of integers that are not cell numbers (`l.append(j0)`, `l.append(noutlets - 1)`: list Z, possibly negative), created
+    by `list()`; np.array(l, dtype=...) of such a list is l; l[p] is nth (Z.to_nat p) l 0; `l >= x`, `l <= x`, `l > x` give one
+    boolean per element; np.logical_and(a, b) is map andb (combine a b) (NumPy raises for different lengths; both are slices
+    of the same list here); `np.where(b)[0]` is gen_ihu_where b (the positions of the true elements, a list of positions as
+    np.argsort's) and `np.where(b)[0] + k` adds Z.to_nat k; l[ps] for a list ps of positions is map (nth . l), also for a list
+    of cell numbers; np.unique(np.array(l, dtype=...)) IS Ihu.uniq_sorted l (sorted ascending, without duplicates).
+  * `l[k:]` is skipn (Z.to_nat k) l; `for j in range(a, n)` for a length n is List.seq (Z.to_nat a) (n - Z.to_nat a);
+    `l[-1 - i]` for a loop counter i is nth (length l - 1 - i) l d (Python's value for 0 <= i < len(l); IndexError otherwise,
+    not modelled like every out-of-range read).  NEGATIVE k / a are not modelled (Z.to_nat is 0 there; Python would count from
+    the end): in ihu_relocate_outlets j0, k0 are 0 or a loop counter (+ 1).
+  * `x if c else y` of booleans; `x in l` for an integer x that holds a cell number; a name may be assigned a length and an
+    integer (nbottlenecks = -1 / len(bottleneck)): it is an integer.
+  * `_, idx, o = f(...)`: `_` is an ordinary name.
 
 What is different from gen_upscale.py (statements are translated in state-passing style):
   * every Python name is ONE Gallina name; an assignment `x = e`, `a[i] = e`, `l.append(e)`, `x += e` is `let x := ... in`
@@ -135,6 +167,12 @@ FUNCS += [
                              "pit_out_of_cell": "Z", "mv": "mv"},
          nsub="subidxs_ds", shapes=("shape",), ea=True, abstract_calls=("ihu_relocate_outlets",)),
 ]
+# ihu_relocate_outlets comes LAST: the text generated for the functions above (and the driver's parameter `relocate`) is unchanged
+FUNCS += [
+    dict(name="ihu_relocate_outlets", params={"idxs_fix": SHORT, "idxs_ds": CDS, "subidxs_out": REP, "subidxs_ds": FA, "subuparea": UPA,
+                                              "subshape": "shape", "shape": "shape", "cellsize": "Z", "mv": "mv"},
+         nsub="subidxs_ds", nc="idxs_ds", notnone=("idxs_fix",)),
+]
 # functions that are NOT translated and enter a translated caller as a parameter (a function of the arguments of the call):
 # name in the generated text, signature that the source must have, results, the arrays that it stores into and returns, partial
 ABSTRACT_CALLS = {
@@ -162,6 +200,9 @@ PRELUDE_BREAK = [
     "  match fold_left (fun (st_ : option (S * bool)) (x_ : X) =>",
     "                     match st_ with None => None | Some (s_, b_) => if b_ then st_ else f s_ x_ end) l (Some (s, false)) with",
     "  | None => None | Some (s_, _) => Some s_ end.", ""]
+PRELUDE_REL = [
+    "(* np.where(b)[0]: the positions of the true elements *)",
+    "Definition gen_ihu_where (b : list bool) : list nat := filter (fun i_ => nth i_ b false) (List.seq 0 (length b)).", ""]
 ELEM_DEFAULT = {"F": "NSUB", "C": "NC", "Z": "0%Z", "S": "(-9)%Z", "B": "false", "T": "true"}
 ELEM_COQ = {"F": "list nat", "C": "list nat", "Z": "list Z", "S": "list Z", "B": "list bool", "T": "list bool"}
 CTX = "@@CTX@@"
@@ -201,6 +242,8 @@ def join(ts, name, node):
         return next(iter(ts - {("list", None)}))
     if "Z4" in ts and all(t == "Z4" or isZ(t) or isnat(t) for t in ts):
         return "Z4"
+    if ("len", None) in ts and ts <= {("len", None), Z0, ("nat", None)} and len(ts) > 1:
+        return Z0
     if "mv" in ts and len(ts) == 2:
         o = next(t for t in ts if t != "mv")
         if (isZ(o) or isnat(o)) and o[1] in ("F", "C"):
@@ -233,6 +276,7 @@ class IFn(Fn):
         self.aliased, self.callmutated = set(), set()
         self.guards = set()      # (x, l): inside the body of `if x in l:`, neither name assigned since
         self.usesihu = False
+        self.usesrel = False
         self.aux, self.used, self.tuples = [], set(), {}
         self.nloop, self.done = 0, set()
         self.rtypes = None
@@ -426,7 +470,112 @@ class IFn(Fn):
             self.have(ELEM_DEFAULT[ek], node)
         return ELEM_DEFAULT[ek]
 
+    # ---------------------------------------------------------------- expressions of ihu_relocate_outlets (see the docstring)
+    def pos_nat(self, e):
+        """a position (index of a list, bound of a slice) as a nat: a loop counter as it is, an integer z as Z.to_nat z"""
+        c, t = self.ex(e)
+        if t == ("nat", None) or islen(t):
+            return c
+        if t == Z0:
+            return f"(Z.to_nat {c})"
+        fail(e, FN, f"a position is expected, got {t}")
+
+    def elem_list(self, t):
+        """(default of an element, type of an element) of a list type that can be indexed"""
+        if islist(t) and t[1] in ("F", "C"):
+            return ELEM_DEFAULT[t[1]], ("nat", t[1])
+        if t == "zlist":
+            return "0%Z", Z0
+        return None
+
+    def ex_rel(self, e):
+        if is_np_call(e, ("unique",)):
+            a = e.args[0] if len(e.args) == 1 and not e.keywords else None
+            if not (is_np_call(a, ("array",)) and len(a.args) == 1 and isinstance(a.args[0], ast.Name)
+                    and len(a.keywords) == 1 and a.keywords[0].arg == "dtype"):
+                fail(e, FN, "unsupported np.unique (np.unique(np.array(l, dtype=...)) of a list is expected)")
+            c, t = self.lookup(a.args[0])
+            if not (islist(t) and t[1] in ("F", "C")):
+                fail(e, FN, "np.unique of a value that is not a list of cell numbers")
+            self.usesihu = True
+            return f"(uniq_sorted {c})", t
+        if is_np_call(e, ("logical_and",)):
+            if len(e.args) != 2 or e.keywords:
+                fail(e, FN, "unsupported np.logical_and")
+            (a, ta), (b, tb) = self.ex(e.args[0]), self.ex(e.args[1])
+            if ta != "blist" or tb != "blist":
+                fail(e, FN, "np.logical_and of values that are not lists of booleans")
+            return f"(map (fun p_ => (fst p_ && snd p_)) (combine {a} {b}))", "blist"
+
+        def where0(x):
+            if isinstance(x, ast.Subscript) and is_np_call(x.value, ("where",)) and isinstance(x.slice, ast.Constant) \
+                    and type(x.slice.value) is int and x.slice.value == 0:
+                w = x.value
+                if len(w.args) != 1 or w.keywords:
+                    fail(x, FN, "unsupported np.where")
+                c, t = self.ex(w.args[0])
+                if t != "blist":
+                    fail(x, FN, "np.where of a value that is not a list of booleans")
+                self.usesrel = True
+                return f"(gen_ihu_where {c})"
+            return None
+
+        if isinstance(e, ast.BinOp) and isinstance(e.op, ast.Add) and where0(e.left) is not None:
+            return f"(map (fun i_ => (i_ + {self.pos_nat(e.right)})%nat) {where0(e.left)})", ("list", "P")
+        if where0(e) is not None:
+            return where0(e), ("list", "P")
+        if isinstance(e, ast.IfExp):
+            c, t = self.ex(e.test)
+            (a, ta), (b, tb) = self.ex(e.body), self.ex(e.orelse)
+            if t == "bool" and ta == "bool" and tb == "bool":
+                return f"(if {c} then {a} else {b})", "bool"
+            return None
+        if isinstance(e, ast.Subscript) and isinstance(e.slice, ast.Slice) and e.slice.lower is not None:
+            sl = e.slice
+            c, t = self.ex(e.value)
+            if sl.upper is not None or sl.step is not None or self.elem_list(t) is None:
+                fail(e, FN, "unsupported slice (l[::-1] and l[k:] of a list are understood)")
+            return f"(skipn {self.pos_nat(sl.lower)} {c})", t
+        if isinstance(e, ast.Subscript) and not isinstance(e.slice, (ast.Slice, ast.Tuple)):
+            # l[-1 - i] for a loop counter i;  l[p] of a list of integers;  l[ps] for a list ps of positions
+            neg = e.slice
+            if isinstance(neg, ast.BinOp) and isinstance(neg.op, ast.Sub) and isinstance(neg.right, ast.Name) \
+                    and isinstance(neg.left, ast.UnaryOp) and isinstance(neg.left.op, ast.USub) \
+                    and isinstance(neg.left.operand, ast.Constant) and type(neg.left.operand.value) is int and neg.left.operand.value == 1:
+                if not isinstance(e.value, ast.Name):
+                    fail(e, FN, "unsupported negative index")
+                c, t = self.lookup(e.value)
+                i, it = self.lookup(neg.right)
+                if self.elem_list(t) is None or it != ("nat", None):
+                    fail(e, FN, "l[-1 - i]: a list and a loop counter are expected")
+                d, et = self.elem_list(t)
+                if et[1] in ("F", "C"):
+                    self.have(d, e)
+                return f"(nth (length {c} - 1 - {i}) {c} {d})", et
+            if isinstance(e.slice, ast.UnaryOp):
+                return None
+            if isinstance(e.value, ast.Name) and e.value.id in self.env or is_np_call(e.value, ("array",)):
+                c, t = self.ex(e.value)
+                if self.elem_list(t) is not None:
+                    d, et = self.elem_list(t)
+                    if isinstance(e.slice, ast.Name) and self.env.get(e.slice.id, (0, 0))[1] == ("list", "P"):
+                        ic, _ = self.lookup(e.slice)
+                        if et[1] in ("F", "C"):
+                            self.have(d, e)
+                        return f"(map (fun i_ => nth i_ {c} {d}) {ic})", t
+                    if t == "zlist":
+                        return f"(nth {self.pos_nat(e.slice)} {c} {d})", et
+            return None
+        if is_np_call(e, ("array",)) and len(e.args) == 1 and isinstance(e.args[0], ast.Name) \
+                and all(kw.arg == "dtype" for kw in e.keywords) and len(e.keywords) <= 1 \
+                and self.env.get(e.args[0].id, (0, 0))[1] == "zlist":
+            return self.lookup(e.args[0])
+        return None
+
     def ex(self, e):
+        r = self.ex_rel(e)
+        if r is not None:
+            return r
         if isinstance(e, ast.Call) and isinstance(e.func, ast.Name) and e.func.id == "int" and len(e.args) == 1 and not e.keywords \
                 and is_np_call(e.args[0], ("ceil",)):
             q = e.args[0]
@@ -579,6 +728,11 @@ class IFn(Fn):
         if len(e.ops) != 1:
             fail(e, FN, "chained comparison")
         op, l, r = type(e.ops[0]), e.left, e.comparators[0]
+        if op in (ast.Is, ast.IsNot) and isinstance(r, ast.Constant) and isinstance(r.value, bool):
+            c, t = self.ex(l)       # `b is False` of a boolean b (a Python / numba bool is one of the two objects True, False)
+            if t != "bool":
+                fail(e, FN, "`is True` / `is False` of a value that is not a boolean")
+            return (c if r.value == (op is ast.Is) else f"(negb {c})"), "bool"
         if op in (ast.Is, ast.IsNot):
             if not (isinstance(r, ast.Constant) and r.value is None):
                 fail(e, FN, "unsupported identity test")
@@ -589,11 +743,21 @@ class IFn(Fn):
             return f"(match {c} with None => {yes} | Some _ => {no} end)", "bool"
         if op in (ast.In, ast.NotIn):
             (a, ta), (b, tb) = self.ex(l), self.ex(r)
+            if tb == ("list", None):        # the kind of the elements is found at an append further down: next pass
+                self.dirty = True
+                return "false", "bool"
+            if isZ(ta) and islist(tb) and ta[1] == tb[1] and ta[1] in ("F", "C"):
+                a, ta = f"(Z.to_nat {a})", ("nat", ta[1])
             if not (isnat(ta) and islist(tb) and ta[1] == tb[1] and ta[1] in ("F", "C")):
                 fail(e, FN, "x in l: a cell number and a list of cell numbers of its kind are expected")
             c = f"(memb {a} {b})"
             return (c if op is ast.In else f"(negb {c})"), "bool"
         (a, ta), (b, tb) = self.ex(l), self.ex(r)
+        if ta == "zlist" and (tb == Z0 or tb == ("nat", None) or islen(tb)):
+            sym = {ast.Eq: "=?", ast.Lt: "<?", ast.LtE: "<=?", ast.Gt: ">?", ast.GtE: ">=?"}.get(op)
+            if sym is None:
+                fail(e, FN, "unsupported comparison")
+            return f"(map (fun x_ => (x_ {sym} {self.toZ(b, tb, e)})%Z) {a})", "blist"
         if islist(ta) and ta[1] in ("F", "C") and (isnat(tb) or isZ(tb)) and tb[1] == ta[1] and op in (ast.Eq, ast.NotEq):
             # l == x, l != x of an array l: one boolean per element
             c = f"(x_ =? {self.tonat(b, tb, ta[1], e)})%nat"
@@ -741,6 +905,8 @@ class IFn(Fn):
             return c
         if target == "Z4" and (isZ(t) or isnat(t)):
             return f"(4 * {self.toZ(c, t, None)})%Z"
+        if target == Z0 and t == ("len", None):
+            return f"(Z.of_nat {c})"
         if isZ(t) and isopt(target) and t[1] == target[1]:
             return f"(Some (Z.to_nat {c}))"
         if isnat(t) and isopt(target) and t[1] == target[1]:
@@ -768,6 +934,8 @@ class IFn(Fn):
     def array_init(self, name, v, node):
         if isinstance(v, ast.List) and not v.elts or \
                 (isinstance(v, ast.Call) and isinstance(v.func, ast.Name) and v.func.id == "list" and not v.args and not v.keywords):
+            if self.listkind.get(name) == "Z":
+                return "(@nil Z)", "zlist"
             return "(@nil nat)", ("list", self.listkind.get(name))
         if is_np_call(v, ("full",)):
             dt = [kw for kw in v.keywords if kw.arg == "dtype"]
@@ -851,6 +1019,20 @@ class IFn(Fn):
             if k.ret is None:
                 fail(s, FN, "return inside a loop")
             return pad + k.ret(s)
+        if isinstance(s, ast.Pass):
+            return self.block(rest, ind, k)
+        if isinstance(s, ast.If) and isinstance(s.test, ast.Compare) and len(s.test.ops) == 1 and isinstance(s.test.ops[0], ast.Is) \
+                and isinstance(s.test.left, ast.Name) and s.test.left.id in self.spec.get("notnone", ()):
+            # `if p is None: x = ... else: x = p` for a parameter p that is declared as a list (never None: the callers that are
+            # modelled pass a list): the first branch is dead and is not translated
+            r, p_ = s.test.comparators[0], s.test.left.id
+            def one(b):
+                return len(b) == 1 and isinstance(b[0], ast.Assign) and len(b[0].targets) == 1 and isinstance(b[0].targets[0], ast.Name)
+            if not (isinstance(r, ast.Constant) and r.value is None and self.nstores.get(p_, 0) == 0 and p_ in self.arrparams
+                    and one(s.body) and one(s.orelse) and s.body[0].targets[0].id == s.orelse[0].targets[0].id
+                    and isinstance(s.orelse[0].value, ast.Name) and s.orelse[0].value.id == p_):
+                fail(s, FN, "unsupported `is None` test of a parameter that is never None")
+            return self.block(list(s.orelse) + rest, ind, k)
         if isinstance(s, ast.Assert):
             if s.msg is not None:
                 fail(s, FN, "unsupported assertion")
@@ -942,7 +1124,7 @@ class IFn(Fn):
                 if isinstance(v, ast.Name) and (islist(ty) or isarr(ty) or ty == "blist"):
                     # a second name for a list: only when neither name is ever stored into
                     sto = modified(self.fd.body)
-                    if not islist(ty) or {t.id, v.id} & (sto | self.callmutated | self.arrparams):
+                    if not islist(ty) or {t.id, v.id} & (sto | self.callmutated | (self.arrparams - set(self.spec.get("notnone", ())))):
                         fail(s, FN, "a second name for a list / an array that is stored into")
                     self.aliased |= {t.id, v.id}
                 if not (isnat(ty) or isZ(ty) or isopt(ty) or islen(ty) or islist(ty) or isarr(ty) and isinstance(v, ast.Call)
@@ -969,9 +1151,18 @@ class IFn(Fn):
                 and not s.value.keywords):
             lst = s.value.func.value.id
             lc, lt = self.lookup(s.value.func.value)
-            if not islist(lt):
+            if not islist(lt) and lt != "zlist":
                 fail(s, FN, f"{lst} is not a list")
             c, t = self.ex(s.value.args[0])
+            if lt == "zlist" or lt == ("list", None) and (t == Z0 or t == ("nat", None)):
+                # a list of integers that are not cell numbers (positions)
+                if not (t == Z0 or t == ("nat", None)):
+                    fail(s, FN, "only integers are appended to a list of integers")
+                if lt != "zlist":
+                    self.listkind[lst] = "Z"
+                    self.dirty = True       # the list was created as a list of cell numbers: next pass
+                self.guards = {g for g in self.guards if lst not in g}
+                return f"{pad}let {lst} := {lst} ++ [{self.toZ(c, t, s)}] in\n" + self.block(rest, ind, k)
             if not ((isnat(t) or isZ(t)) and t[1] in ("F", "C")):
                 fail(s, FN, "only cell numbers are appended")
             if lt[1] is None:
@@ -992,6 +1183,11 @@ class IFn(Fn):
             if any(isinstance(n, (ast.For, ast.While)) for x in rest for n in ast.walk(x)) \
                     and not self.has_terminal(s.body) and not self.has_terminal(s.orelse):
                 return self.do_if_join(s, c, g, rest, ind, k)
+            if any(isinstance(n, (ast.For, ast.While)) for x in rest for n in ast.walk(x)) \
+                    and self.can_fall(s.body) and self.can_fall(s.orelse) and k.cont is not None \
+                    and self.only_continue(s.body) and self.only_continue(s.orelse):
+                # both branches can reach the rest (which has a loop and is translated once) and some path ends in `continue`
+                return self.do_if_join(s, c, g, rest, ind, k, flag=True)
             saved, stup, sg = dict(self.env), dict(self.tuples), set(self.guards)
             if g:
                 self.guards.add(g)
@@ -1006,6 +1202,28 @@ class IFn(Fn):
             self.done.add(id(s))
             return self.do_for(s, rest, ind, k) if isinstance(s, ast.For) else self.do_while(s, rest, ind, k)
         fail(s, FN, f"unsupported statement {type(s).__name__}")
+
+    def can_fall(self, body):
+        """the end of the block can be reached"""
+        if not body:
+            return True
+        last = body[-1]
+        if isinstance(last, (ast.Continue, ast.Break, ast.Return)):
+            return False
+        if isinstance(last, ast.If):
+            return self.can_fall(last.body) or self.can_fall(last.orelse)
+        return True
+
+    def only_continue(self, body):
+        """the only statements that leave the block are `continue`s (of the enclosing loop)"""
+        for x in body:
+            if isinstance(x, (ast.Break, ast.Return)):
+                return False
+            if isinstance(x, ast.If) and not (self.only_continue(x.body) and self.only_continue(x.orelse)):
+                return False
+            if isinstance(x, (ast.For, ast.While)) and any(isinstance(n, ast.Return) for n in ast.walk(x)):
+                return False
+        return True
 
     def has_terminal(self, body):
         """continue / break / return that leaves this block (break and continue of loops inside it do not)"""
@@ -1030,23 +1248,52 @@ class IFn(Fn):
                     fail(node, FN, f"{n} is a loop variable and is assigned")
                 del self.env[n]
 
-    def do_if_join(self, s, c, g, rest, ind, k):
+    def do_if_join(self, s, c, g, rest, ind, k, flag=False):
         """if / else without continue / break / return, followed by a loop: the value of the if is the tuple of the names that
         are bound before it and assigned in it; names first bound in a branch are not visible after it"""
         pad = " " * ind
         self.scrub(list(s.body) + list(s.orelse), s)
         entry, stup, sg = dict(self.env), dict(self.tuples), set(self.guards)
         jv = self.stateful(entry, list(s.body) + list(s.orelse), s)
-        if not jv:
+        # names first bound in BOTH branches (assigned on every path) that are read afterwards
+        newn = [n for n in names_stored(list(s.body) + list(s.orelse)) if n not in entry and self.reads_first(rest, n) == "r"
+                and self.reads_first(s.body, n) == "w" and self.reads_first(s.orelse, n) == "w"]
+        if flag and newn:
+            fail(s, FN, "a name first bound in an if with `continue` is read after it")
+        if not jv and not newn:
             fail(s, FN, "an if without effect")
         partial = self.is_partial(list(s.body) + list(s.orelse))
+        jt = {}
 
-        def end():
+        def fin(b):
             for n in jv:
                 if self.env[n][1] != entry[n][1]:
                     self.dirty = True
-            tup = self.tuple_of(list(jv))
+            for n in newn:
+                if n not in self.env:
+                    fail(s, FN, f"{n} is not bound at the end of a branch")
+                if jt.setdefault(n, self.env[n][1]) != self.env[n][1]:
+                    self.dirty = True
+            tup = self.tuple_of(list(jv) + newn + ([b] if flag else []))
             return f"Some {tup}" if partial else tup
+
+        def end():
+            return fin("false")
+
+        if flag:
+            kk = K2(end, cont=lambda: fin("true"))
+            a = self.block(list(s.body), ind + 2, kk)
+            self.env, self.tuples, self.guards = dict(entry), dict(stup), set(sg)
+            b = self.block(list(s.orelse), ind + 2, kk)
+            self.env, self.tuples = dict(entry), stup
+            self.guards = {x for x in sg if not (set(x) & set(jv))}
+            pat = list(jv) + ["cont_"]
+            cont = k.cont()
+            if partial:
+                return (f"{pad}match (if {c} then\n{a}\n{pad}else\n{b}) with\n{pad}| None => None\n{pad}| Some {self.tuple_of(pat)} =>\n"
+                        f"{pad}  if cont_ then {cont} else\n" + self.block(rest, ind + 2, k) + f"\n{pad}end")
+            return (f"{pad}let {self.pat_of(pat)} := if {c} then\n{a}\n{pad}else\n{b} in\n{pad}if cont_ then {cont} else\n"
+                    + self.block(rest, ind, k))
 
         if g:
             self.guards.add(g)
@@ -1055,10 +1302,12 @@ class IFn(Fn):
         b = self.block(list(s.orelse), ind + 2, K2(end))
         self.env, self.tuples = dict(entry), stup
         self.guards = {x for x in sg if not (set(x) & set(jv))}
+        for n in newn:
+            self.env[n] = (n, jt[n], "v")
         if partial:
-            return (f"{pad}match (if {c} then\n{a}\n{pad}else\n{b}) with\n{pad}| None => None\n{pad}| Some {self.tuple_of(list(jv))} =>\n"
+            return (f"{pad}match (if {c} then\n{a}\n{pad}else\n{b}) with\n{pad}| None => None\n{pad}| Some {self.tuple_of(list(jv) + newn)} =>\n"
                     + self.block(rest, ind + 2, k) + f"\n{pad}end")
-        return f"{pad}let {self.pat_of(jv)} := if {c} then\n{a}\n{pad}else\n{b} in\n" + self.block(rest, ind, k)
+        return f"{pad}let {self.pat_of(list(jv) + newn)} := if {c} then\n{a}\n{pad}else\n{b} in\n" + self.block(rest, ind, k)
 
     def reads_first(self, stmts, n):
         """'r': n may be read before it is assigned in stmts; 'w': it is assigned first on every path; None: neither"""
@@ -1133,6 +1382,12 @@ class IFn(Fn):
             if not (islist(t) and t[1] in ("F", "C", "P")):
                 fail(s, FN, "unsupported loop domain")
             dom, vt = c, ("nat", None if t[1] == "P" else t[1])
+        elif isinstance(it, ast.Call) and isinstance(it.func, ast.Name) and it.func.id == "range" and len(it.args) == 2 \
+                and not it.keywords and isinstance(it.args[1], ast.Name) and islen(self.env.get(it.args[1].id, (0, 0))[1]):
+            # range(a, n) for a length n and an integer a (a >= 0: a negative a is not modelled)
+            a = self.pos_nat(it.args[0])
+            n, _ = self.lookup(it.args[1])
+            dom, vt = f"(List.seq {a} ({n} - {a}))", ("nat", None)
         elif isinstance(it, ast.Call) and isinstance(it.func, ast.Name) and it.func.id == "range" and len(it.args) == 2 \
                 and not it.keywords:
             lo, hi = gen.const_int(it.args[0], FN), gen.const_int(it.args[1], FN)
@@ -1217,6 +1472,10 @@ class IFn(Fn):
 
     def do_while(self, s, rest, ind, k):
         pad = " " * ind
+        if not s.orelse and (
+                not (isinstance(s.test, ast.Constant) and s.test.value is True)
+                or any(isinstance(n, (ast.For, ast.While)) and n is not s for n in ast.walk(s)) or self.is_partial(s.body)):
+            return self.do_while2(s, rest, ind, k)
         if not (isinstance(s.test, ast.Constant) and s.test.value is True) or s.orelse:
             fail(s, FN, "only `while True:` is understood")
         for n in ast.walk(s):
@@ -1276,6 +1535,126 @@ class IFn(Fn):
         return (f"{pad}match {call} with\n{pad}| None => None\n{pad}| Some {self.tuple_of(carried + liveout)} =>\n"
                 + self.block(rest, ind + 2, k) + f"\n{pad}end")
 
+    def while_cond(self, test):
+        """None for `while True`; `True and c` is c"""
+        if isinstance(test, ast.Constant) and test.value is True:
+            return None
+        if isinstance(test, ast.BoolOp) and isinstance(test.op, ast.And):
+            vs = [v for v in test.values if not (isinstance(v, ast.Constant) and v.value is True)]
+            if not vs:
+                return None
+            if len(vs) == 1:
+                return vs[0]
+            t2 = ast.BoolOp(op=ast.And(), values=vs)
+            ast.copy_location(t2, test)
+            return t2
+        return test
+
+    def do_while2(self, s, rest, ind, k):
+        """`while c:` / `while True:` whose body may contain for loops, while loops, calls of functions with while loops and
+        (at its own level) `break`: the body is a definition <w>_body from the carried names to (the carried names, the names
+        first bound in the body that are read after the loop, left?) and <w> iterates it over its own fuel `fuel_` (the loops
+        inside get the function's whole `fuel`).  When names first bound in the body are read after the loop the first
+        iteration is written out at the call: a loop that is not entered has no value (Python: NameError at the read)"""
+        pad = " " * ind
+        for n in ast.walk(s):
+            if isinstance(n, (ast.Return, ast.Assert)):
+                fail(n, FN, f"{type(n).__name__} inside a while loop")
+        cond = self.while_cond(s.test)
+        self.have("fuel", s)
+        self.scrub(s.body, s)
+        entry = dict(self.env)
+        carried = self.stateful(entry, s.body, s)
+        if "fuel" in carried:
+            fail(s, FN, "fuel is assigned")
+        if not carried:
+            fail(s, FN, "the loop has no effect")
+        liveout = [n for n in names_stored(s.body) if n not in entry and self.reads_first(rest, n) == "r"]
+        for n in liveout:
+            if self.reads_first(s.body, n) != "w":
+                fail(s, FN, f"{n} is read after the loop and is not assigned first in its body")
+        hasbrk = self.has_break(s.body)
+        if cond is None and not hasbrk:
+            fail(s, FN, "the loop has no break")
+        partial = self.is_partial(s.body)
+        self.nloop += 1
+        wname = f"{self.coqname}_walk{self.nloop}"
+        outer_used, self.used = self.used, set()
+        stup = dict(self.tuples)
+        ctext = None
+        if cond is not None:
+            ctext, ct = self.ex(cond)
+            if ct != "bool":
+                fail(s, FN, "non-boolean condition")
+        rtypes = {}
+
+        def fin(b, node):
+            for n in carried:
+                if self.env[n][1] != entry[n][1]:
+                    self.dirty = True
+            for n in liveout:
+                if n not in self.env:
+                    fail(node, FN, f"{n} is read after the loop but not bound here")
+                if rtypes.setdefault(n, self.env[n][1]) != self.env[n][1]:
+                    self.dirty = True
+            tup = self.tuple_of(carried + liveout + ([b] if hasbrk else []))
+            return f"Some {tup}" if partial else tup
+
+        body = self.block(list(s.body), 2, K2(lambda: fin("false", s), brk=(lambda node: fin("true", node)) if hasbrk else None))
+        ctx = [n for n in entry if n in self.used and n not in carried and entry[n][0] != ""]
+        self.used = outer_used | set(ctx) | set(carried) | {"fuel"}
+        sty = " * ".join(self.cty(entry[n][1]) for n in carried)
+        lty = " * ".join(self.cty(rtypes[n]) for n in liveout)
+        oty = " * ".join([self.cty(entry[n][1]) for n in carried] + [self.cty(rtypes[n]) for n in liveout])
+        bty = oty + (" * bool" if hasbrk else "")
+        binders = "".join(f"({n} : {self.cty(entry[n][1])}) " for n in ctx)
+        self.usesbreak = self.usesbreak
+        self.aux.append(f"Definition {wname}_body {binders}(st_ : {sty}) : {'option (' + bty + ')' if partial else bty} :=\n"
+                        f"  let {self.pat_of(carried)} := st_ in\n{body}.")
+        cl = carried + liveout
+        f = " ".join([wname] + ctx)
+        fb = " ".join([wname + "_body"] + ctx)
+        args = self.tuple_of(carried) + (" " + self.tuple_of(liveout) if liveout else "")
+
+        def iterate(i, fuel):
+            """one iteration (the carried names are in scope), then the loop with the given fuel"""
+            p = " " * i
+            nxt = f"{f} {fuel} {args}"
+            if hasbrk:
+                nxt = f"if b_ then Some {self.tuple_of(cl)} else {nxt}"
+            pat = self.tuple_of(cl + (["b_"] if hasbrk else []))
+            if partial:
+                return f"{p}match {fb} {self.tuple_of(carried)} with\n{p}| None => None\n{p}| Some {pat} => {nxt}\n{p}end"
+            return f"{p}match {fb} {self.tuple_of(carried)} with\n{p}| {pat} => {nxt}\n{p}end"
+
+        lo = f" (lo_ : {lty})" if liveout else ""
+        fx = [f"Fixpoint {wname} {binders}(fuel_ : nat) (st_ : {sty}){lo} {{struct fuel_}} : option ({oty}) :=",
+              "  match fuel_ with", "  | O => None", "  | S fuel_' =>", f"    let {self.pat_of(carried)} := st_ in"]
+        if liveout:
+            fx.append(f"    let {self.pat_of(liveout)} := lo_ in")
+        if ctext is not None:
+            fx += [f"    if {ctext} then", iterate(6, "fuel_'"), f"    else Some {self.tuple_of(cl)}"]
+        else:
+            fx.append(iterate(4, "fuel_'"))
+        fx.append("  end.")
+        self.aux.append("\n".join(fx))
+        self.env, self.tuples = dict(entry), stup
+        for n in carried:       # element kinds of lists found in the body
+            if islist(entry[n][1]) and n in self.listkind and self.listkind[n] != "Z":
+                self.env[n] = (n, ("list", self.listkind[n]), "v")
+        for n in liveout:
+            self.env[n] = (n, rtypes[n], "v")
+        if liveout:
+            first = iterate(ind + 2, "fuel")
+            if ctext is not None:
+                call = f"(if {ctext} then\n{first}\n{pad}  else None)"
+            else:
+                call = f"(\n{first})"
+        else:
+            call = f"{f} fuel {args}"
+        return (f"{pad}match {call} with\n{pad}| None => None\n{pad}| Some {self.tuple_of(cl)} =>\n"
+                + self.block(rest, ind + 2, k) + f"\n{pad}end")
+
     # ---------------------------------------------------------------- the function
     def translate(self):
         self.header()
@@ -1331,7 +1710,7 @@ class IFn(Fn):
         d += ["  " + l for l in self.head]
         out.append("\n".join(d) + "\n" + text + ".")
         info = dict(coq=self.coqname, sig=self.sig, ret=list(self.rtypes), partial=self.partial, fuel=self.fuel,
-                    alias=dict(self.alias), nret=self.nret, usesbreak=self.usesbreak, usesihu=self.usesihu)
+                    alias=dict(self.alias), nret=self.nret, usesbreak=self.usesbreak, usesihu=self.usesihu, usesrel=self.usesrel)
         return f"(* {FN}: {self.fd.name} *)\n" + "\n".join(out), info
 
 
@@ -1386,7 +1765,7 @@ def gen_ihu():
     for h in HELPERS:       # the helpers must be the ones that gen_upscale.py translates (same source file)
         if sum(isinstance(n, ast.FunctionDef) and n.name == h for n in trees[FN].body) != 1:
             raise GenError(f"{FN}: {h} is not defined exactly once")
-    prelude = prelude2 = False
+    prelude = prelude2 = prelude3 = False
     for spec in FUNCS:
         fn = spec.get("file", FN)
         if fn not in trees:
@@ -1401,6 +1780,9 @@ def gen_ihu():
         if info["usesbreak"] and not prelude:
             parts += PRELUDE_BREAK
             prelude = True
+        if info["usesrel"] and not prelude3:
+            parts += PRELUDE_REL
+            prelude3 = True
         parts += [text.replace(f"(* {FN}: ", f"(* {fn}: "), ""]
     return "\n".join(parts)
 
